@@ -43,12 +43,18 @@ func jdocOf(v any) string {
 	case string:
 		return "(JStr " + gal.Bytes([]byte(x)) + ")"
 	case []any:
+		if x == nil {
+			return "JNull" // a nil list is JSON null, an empty list is not
+		}
 		var es []string
 		for _, e := range x {
 			es = append(es, jdocOf(e))
 		}
 		return "(JList " + gal.List(es) + ")"
 	case map[string]any:
+		if x == nil {
+			return "JNull"
+		}
 		keys := make([]string, 0, len(x))
 		for k := range x {
 			keys = append(keys, k)
@@ -69,7 +75,7 @@ type g18 struct {
 }
 
 func (g *g18) str(actions bool) string {
-	words := []string{"", "a", "b c", "x{y", "}}", "{ {", "1", "t"}
+	words := []string{"", "a", "b c", "x{y", "} }", "{ {", "1", "t"}
 	s := words[g.r.Intn(len(words))]
 	if actions && len(g.envKeys) > 0 && g.r.Intn(2) == 0 {
 		k := g.envKeys[g.r.Intn(len(g.envKeys))]
@@ -77,6 +83,17 @@ func (g *g18) str(actions bool) string {
 		s += "{{" + sp + "." + k + sp + "}}" + words[g.r.Intn(len(words))]
 		if g.r.Intn(4) == 0 {
 			s += "{{ ." + g.envKeys[g.r.Intn(len(g.envKeys))] + " }}"
+		}
+	} else if actions && len(g.envKeys) > 0 && g.r.Intn(5) == 0 {
+		// a conditional: the only actions of the string are control actions
+		k := g.envKeys[g.r.Intn(len(g.envKeys))]
+		s += "{{ if ." + k + " }}yes" + words[g.r.Intn(len(words))]
+		if g.r.Intn(2) == 0 {
+			s += "{{ else }}no"
+		}
+		s += "{{ end }}"
+		if g.r.Intn(3) == 0 {
+			s += "{{ ." + k + " }}"
 		}
 	}
 	return s
@@ -199,7 +216,7 @@ func case18(r *rand.Rand, hist map[string]int) (string, any, string, bool) {
 	}
 	fieldsG := jdocOf(map[string]any(fields))
 	if fields == nil {
-		fieldsG = "(JMap [])"
+		fieldsG = "(JMap [])" // Build turns absent fields into an empty map when an environment exists
 	}
 	u := &spec.Unstructured{Meta: spec.Meta{ID: uid(9), Kind: "k", Namespace: ns, Env: env}, Fields: fields}
 	obs, fail := "", ""
